@@ -65,6 +65,10 @@ def main():
             i = bisect.bisect_right(starts, l) - 1
             if i >= 0:
                 hit.add(starts[i])
+        # the same function may have two alternative signatures selected by #ifdef a few lines apart: the earlier one has no lines of its own
+        for i in range(len(starts) - 2, -1, -1):
+            if starts[i] not in hit and starts[i + 1] in hit and starts[i + 1] - starts[i] <= 8:
+                hit.add(starts[i])
         summary[f] = {'functions': len(starts), 'reached': len(hit)}
         unreached[f] = [(l, d[l]) for l in starts if l not in hit]
     tot = sum(v['functions'] for v in summary.values()); got = sum(v['reached'] for v in summary.values())
